@@ -10,6 +10,13 @@ CHECKS = {}
 def add(id, level, text, note, technique, design_ref):
     CHECKS[id] = dict(level=level, text=text, note=note, technique=technique, design_ref=design_ref)
 
+def amend(id, text="", note=""):
+    """Appends to an entry (extensions made after the entry was first written)."""
+    if text:
+        CHECKS[id]["text"] += " " + text
+    if note:
+        CHECKS[id]["note"] += " " + note
+
 exec(open(os.path.join(ROOT, "tools", "checks_table.py")).read())
 
 props = [json.loads(l) for l in open(os.path.join(ROOT, "properties.jsonl"))]
